@@ -98,6 +98,10 @@ EXPLANATION += (
     ' Round 14: arrays cut by one window are never reordered separately (R-PERM/parallel-windows-in-step).'
 )
 
+EXPLANATION += (
+    ' Round 15: columns gathered by position and their names come from one selection (R-ROLE/columns-and-names-together).'
+)
+
 RULE_TEXT = (
     "one obligation per dominance / typestate / provenance relation named "
     "above")
